@@ -1,6 +1,7 @@
 """C03 — filters mean exactly the documented conjunction, evaluated on the metric name"""
 from . import tablegen as tg, rxgen, gen
 from .c01 import classify, nontrivial
+from . import common
 
 LEVEL_TEXT = ("Lean theorems soundPrefix_sound (all regex ASTs x all names), prefixOK_of_le, match_eq_conj6, agg_filter_complete, "
               "cache_transparent (all histories of lookups and expiries). Regenerated obligations: every Match call site of the dispatch "
@@ -268,7 +269,7 @@ def run(ctx):
     ctx.prepare()
     ctx.lean(["Crng.Props.C03"], ["Crng.Props.C03.soundPrefix_sound", "Crng.Props.C03.prefixOK_of_le", "Crng.Props.C03.match_eq_conj6",
                                   "Crng.Props.C03.agg_filter_complete", "Crng.Props.C03.cache_transparent"],
-             ties=["Crng.Tie.C03"])
+             ties=["Crng.Tie.C03", common.CODE_MATCHER, common.CODE_AGG])
     # the Lean regex engine itself
     rnd = ctx.rng("rx")
     lines = []
